@@ -142,6 +142,7 @@ type c32Spec struct {
 	top, bottom int
 	desc        bool
 	bodyOnly    bool // answer to a body+justification request by hash for block top (no header in it)
+	just        bool // the lowest block of the segment (bottom) carries a justification: importing it finalises it
 	dev         c32Dev
 }
 
@@ -154,6 +155,9 @@ func (s c32Spec) String() string {
 		d = "desc"
 	}
 	out := fmt.Sprintf("%s(%d..%d)", d, s.top, s.bottom)
+	if s.just {
+		out += "+J"
+	}
 	switch s.dev.kind {
 	case "":
 	case "empty", "incomplete":
@@ -225,6 +229,10 @@ func (t *c32Tree) materialise(s c32Spec, who peer.ID) *c32Resp {
 	}
 	for _, v := range nodes {
 		r.bds = append(r.bds, &types.BlockData{Hash: t.hash[v], Header: t.hdr[v], Body: t.body[v]})
+	}
+	if s.just {
+		j := []byte{0x4a, byte(s.bottom)}
+		r.bds[len(r.bds)-1].Justification = &j
 	}
 	switch s.dev.kind {
 	case "forge":
@@ -311,6 +319,7 @@ func (t *c32Tree) honestSpecs() []c32Spec {
 		for top := bottom; top > 0; top = t.parent[top] {
 			out = append(out, c32Spec{top: top, bottom: bottom})
 			out = append(out, c32Spec{top: top, bottom: bottom, desc: true})
+			out = append(out, c32Spec{top: top, bottom: bottom, just: true})
 		}
 	}
 	for v := 1; v < n; v++ {
@@ -375,7 +384,44 @@ type c32BlockState struct {
 	st         *c32State
 	known      map[common.Hash]*types.Header
 	genesis    *types.Header
+	fin        *types.Header // highest finalised header (moves when a block with a justification is imported)
+	ever       map[common.Hash]struct{} // every block that has ever entered the chain (finality forgets abandoned forks)
 }
+
+// SetFinalisedHash mirrors BlockState.SetFinalisedHash: the block must be known and descend from the
+// finalised block; every block that is neither on the finalised chain nor a descendant of the new
+// finalised block is forgotten (BlockTree.Prune + unfinalisedBlocks.delete).
+func (b *c32BlockState) SetFinalisedHash(h common.Hash, _, _ uint64) error {
+	hdr, ok := b.known[h]
+	if !ok {
+		return fmt.Errorf("cannot finalise unknown block %s", h)
+	}
+	onChain := func(anc, desc common.Hash) bool {
+		for cur := desc; ; {
+			if cur == anc {
+				return true
+			}
+			x, ok := b.known[cur]
+			if !ok || x.Number == 0 {
+				return false
+			}
+			cur = x.ParentHash
+		}
+	}
+	if !onChain(b.fin.Hash(), h) {
+		b.st.events = append(b.st.events, "finalise-refused:not-a-descendant-of-the-finalised-block")
+		return errors.New("c32: block to finalise does not descend from the finalised block")
+	}
+	for k := range b.known {
+		if !onChain(k, h) && !onChain(h, k) {
+			delete(b.known, k)
+		}
+	}
+	b.fin = hdr
+	b.st.events = append(b.st.events, "finalised")
+	return nil
+}
+func (b *c32BlockState) SetJustification(common.Hash, []byte) error { return nil }
 
 func (b *c32BlockState) HasHeader(h common.Hash) (bool, error) { _, ok := b.known[h]; return ok, nil }
 func (b *c32BlockState) GetHeader(h common.Hash) (*types.Header, error) {
@@ -384,7 +430,7 @@ func (b *c32BlockState) GetHeader(h common.Hash) (*types.Header, error) {
 	}
 	return nil, database.ErrNotFound
 }
-func (b *c32BlockState) GetHighestFinalisedHeader() (*types.Header, error) { return b.genesis, nil }
+func (b *c32BlockState) GetHighestFinalisedHeader() (*types.Header, error) { return b.fin, nil }
 func (b *c32BlockState) BestBlockHeader() (*types.Header, error)           { return b.genesis, nil }
 func (b *c32BlockState) GetRuntime(common.Hash) (runtime.Instance, error)  { return c32Runtime{}, nil }
 func (b *c32BlockState) IsPaused() bool                                    { return false }
@@ -418,8 +464,9 @@ func (c32Telemetry) SendMessage(json.Marshaler) {}
 
 type c32Finality struct{}
 
+// every justification of the alphabet is a valid one (like the runtime fake executes every block)
 func (c32Finality) VerifyBlockJustification(common.Hash, uint, []byte) (uint64, uint64, error) {
-	return 0, 0, errC32Unexpected
+	return 1, 0, nil
 }
 
 // c32Handler is where a block really enters the chain (the real one calls BlockState.AddBlock,
@@ -440,8 +487,12 @@ func (h c32Handler) HandleBlockImport(block *types.Block, _ *rtstorage.TrieState
 		return errC32Exists
 	}
 	p, ok := st.bs.known[block.Header.ParentHash]
-	if !ok {
+	if !ok || p.Number < st.bs.fin.Number {
+		// the block tree is rooted at the finalised block: nothing attaches below it
 		return errC32NoParen
+	}
+	if _, was := st.bs.ever[hash]; was {
+		st.softf("import:block-enters-the-chain-twice"+st.causeSuffix(), "block #%d %s (%s) enters the chain again after finality had abandoned it", block.Header.Number, hash.Short(), st.nodeName(hash))
 	}
 	if block.Header.Number != p.Number+1 {
 		st.events = append(st.events, "import-refused:unexpected-number")
@@ -449,6 +500,7 @@ func (h c32Handler) HandleBlockImport(block *types.Block, _ *rtstorage.TrieState
 	}
 	hdr := block.Header
 	st.bs.known[hash] = &hdr
+	st.bs.ever[hash] = struct{}{}
 	st.imported = append(st.imported, hash)
 	return nil
 }
@@ -469,7 +521,9 @@ func (i *c32Importer) importBlock(bd *types.BlockData, origin BlockOrigin) (bool
 	}
 	if bd.Header == nil {
 		st.softf("parents-first:block-without-header-handed-to-importer"+st.causeSuffix(), "block %s has no header", bd.Hash.Short())
-	} else if _, ok := st.bs.known[bd.Header.ParentHash]; !ok {
+	} else if _, ok := st.bs.ever[bd.Header.ParentHash]; !ok {
+		// "known" = has entered the chain at some point: a parent on a fork that finality has abandoned
+		// since then was known when its child was requested; the importer refuses such a child itself
 		st.softf("parents-first:block-handed-to-importer-before-its-parent-is-known"+st.causeSuffix(),
 			"block #%d %s (%s) handed to the importer, its parent %s is not known", bd.Header.Number, bd.Header.Hash().Short(),
 			st.nodeName(bd.Header.Hash()), bd.Header.ParentHash.Short())
@@ -524,7 +578,7 @@ func (s *c32State) nodeName(h common.Hash) string {
 
 func c32Fresh(t *c32Tree) *c32State {
 	st := &c32State{tree: t, ptrResp: map[*types.BlockData]*c32Resp{}, handed: map[common.Hash]struct{}{}}
-	st.bs = &c32BlockState{st: st, known: map[common.Hash]*types.Header{t.hash[0]: t.hdr[0]}, genesis: t.hdr[0]}
+	st.bs = &c32BlockState{st: st, known: map[common.Hash]*types.Header{t.hash[0]: t.hdr[0]}, genesis: t.hdr[0], fin: t.hdr[0], ever: map[common.Hash]struct{}{t.hash[0]: {}}}
 	cfg := &FullSyncConfig{
 		StorageState: c32Storage{}, TransactionState: c32TxState{}, FinalityGadget: c32Finality{},
 		BlockImportHandler: c32Handler{st}, Telemetry: c32Telemetry{}, BlockState: st.bs,
@@ -658,7 +712,14 @@ func c32Canonical(st *c32State) []byte {
 		known = append(known, h.String())
 	}
 	sort.Strings(known)
-	b.WriteString("known:" + strings.Join(known, ",") + ";frags:")
+	var ever []string
+	for h := range st.bs.ever {
+		if _, ok := st.bs.known[h]; !ok {
+			ever = append(ever, h.String())
+		}
+	}
+	sort.Strings(ever)
+	b.WriteString("fin:" + st.bs.fin.Hash().String() + ";known:" + strings.Join(known, ",") + ";forgotten:" + strings.Join(ever, ",") + ";frags:")
 	for _, frag := range st.f.unreadyBlocks.disjointFragments {
 		b.WriteString("[")
 		for _, bd := range frag {
